@@ -188,6 +188,27 @@ func init() {
 			x.unsupported("reflect.Value.IsZero on this kind of value")
 			return nil
 		},
+		// identity of a map, slice or pointer (the allocation serial stands for the address)
+		"(reflect.Value).Pointer": func(x *Exec, fr *frame, fn *ssa.Function, a []Value) Value {
+			rv, ok := a[0].(ReflectV)
+			if !ok {
+				x.unsupported("reflect.Value.Pointer on a zero Value")
+			}
+			switch v := rv.I.V.(type) {
+			case *MapObj:
+				if v == nil {
+					return x.ts.BV(64, 0)
+				}
+				return x.ts.BV(64, uint64(0x10000+v.Serial))
+			case Slice:
+				if v.A == nil {
+					return x.ts.BV(64, 0)
+				}
+				return x.ts.BV(64, uint64(0x10000+v.A.Serial)*16+uint64(v.Off))
+			}
+			x.unsupported("reflect.Value.Pointer on this kind of value")
+			return nil
+		},
 		"(reflect.Value).IsValid": func(x *Exec, fr *frame, fn *ssa.Function, a []Value) Value {
 			rv, ok := a[0].(ReflectV)
 			return x.ts.Bool(ok && rv.I.T != nil)
